@@ -50,9 +50,10 @@ def wf_conj_triple(t):
 
 SOURCES = ['a', 'b', 'x1', 'é', '^a', 'a#b', 'x.y', '-', '1', 'a^b', 'a\xa0b', 'bark-01']
 ROLES = [':ARG0', ':instance', ':op1', ':ARG0-of', ':r,s', ':^x', ':^', ':a#', ':mod', ':x.y', ':é', ':,']
-SYM_TARGETS = ['b', 'bark-01', 'b,c', '^', '^x', ',', 'a#', '-', '+', 'x~1', 'e.1', '　z']
+SYM_TARGETS = ['b', 'bark-01', 'b,c', '^', '^x', ',', 'a#', '-', '+', 'x~1', 'e.1', '　z', '\u201cKim\u201d', '8,400,000', 'x^2',
+               '\u2018q\u2019', '\xabg\xbb']
 NUM_TARGETS = [7, 0, -1, -1.5, 0.0, 1e-05, 10 ** 20, float('inf')]
-STR_TARGETS = ['"s"', '""', '"a b"', '"a, b"', '"(x)"', '"^"', '" ^ "', '"a\\"b"', '"#"', '"a\tb"', '"r(a, b)"',
+STR_TARGETS = ['"she said \u201chi, there\u201d \u201e"', '"\u201d"', '"s"', '""', '"a b"', '"a, b"', '"(x)"', '"^"', '" ^ "', '"a\\"b"', '"#"', '"a\tb"', '"r(a, b)"',
                '"\\\\"', '"a\x0bb\x0c"', '"), ^ x("', '":-)"', '"f(x"', '"))"', '"~:/"', '"日本 語"', '"\x85 "']
 OUTSIDE = [('a,b', ':r', 'c'), ('a', ':', 'b'), ('a', 'r', 'b'), ('a', '::r', 'b'), ('a', ':r', None), ('a', ':r', ''),
            ('#a', ':r', 'b'), ('a', ':#r', 'b'), ('a', ':r', '#b'), ('a', ':r', '"x\ny"'), ('', ':r', 'b'),
